@@ -28,6 +28,38 @@ type VerifForm struct {
 	Operands      []VerifOprnd
 }
 
+// verifFeatures renders the feature flags in a fixed layout that does not depend
+// on the numbering of the internal constants: 1 terminal, 2 branch, 4 conditional
+// branch, 8 cancelling inputs.
+func verifFeatures(f feature) uint8 {
+	var v uint8
+	if f&featureTerminal != 0 {
+		v |= 1
+	}
+	if f&featureBranch != 0 {
+		v |= 2
+	}
+	if f&featureConditionalBranch != 0 {
+		v |= 4
+	}
+	if f&featureCancellingInputs != 0 {
+		v |= 8
+	}
+	return v
+}
+
+// verifAction renders an operand action in a fixed layout: 1 read, 2 write.
+func verifAction(a action) uint8 {
+	var v uint8
+	if a.Read() {
+		v |= 1
+	}
+	if a.Write() {
+		v |= 2
+	}
+	return v
+}
+
 // VerifMaxOperands returns maxoperands.
 func VerifMaxOperands() int { return maxoperands }
 
@@ -39,7 +71,7 @@ func VerifForms() []VerifForm {
 		v := VerifForm{
 			Opcode:        f.Opcode.String(),
 			SuffixesClass: uint8(f.SuffixesClass),
-			Features:      uint8(f.Features),
+			Features:      verifFeatures(f.Features),
 			ISAs:          f.ISAs.List(),
 			Arity:         f.Arity,
 		}
@@ -47,7 +79,7 @@ func VerifForms() []VerifForm {
 			if o.Type == 0 {
 				break
 			}
-			v.Operands = append(v.Operands, VerifOprnd{Type: o.Type, Implicit: o.Implicit, Action: uint8(o.Action)})
+			v.Operands = append(v.Operands, VerifOprnd{Type: o.Type, Implicit: o.Implicit, Action: verifAction(o.Action)})
 		}
 		out = append(out, v)
 	}
